@@ -129,6 +129,7 @@ func (eap *EAP) Unmarshal(b []byte) error {
 
 		eap.Code = EapCode(b[0])
 		eap.Identifier = b[1]
+		eap.EapTypeData = nil
 
 		// EAP Success or Failure
 		if eapPayloadLength == 4 {
